@@ -167,3 +167,217 @@ Example display_stmt_injective_witness :
   display_stmt E (SPrint [EUnscoped [116;114;117;101] (0, 6)] (0, 0)) = display_stmt E (SPrint [ETrue] (0, 0)) /\
   display_stmt E (SPrint [ENull] (0, 0)) = [112;114;105;110;116;32;35;110;117;108;108;44;32;97;116;32;40;49;44;32;49;41].    (* print #null, at (1, 1) *)
 Proof. vm_compute. repeat split. Qed.
+
+(* ================================================================================================================
+   PARSED FILES.  The hypothesis `locs_unique fl = true` of the two end-to-end theorems above is a THEOREM about the parser
+   model (Model/Parser.v, tied to parser.rs by streams C07/C05p): a statement's location is the parser position at its
+   keyword, every token consumes at least one character, positions move strictly upwards in (row, column) with every
+   character, and statements are parsed left to right - so the statement locations of a parsed file, in preorder (a
+   statement, then the statements of its nested blocks; stanza after stanza), are STRICTLY INCREASING
+   (parsed_locs_increasing), in particular pairwise different (parsed_locs_unique).  Any externals X (Unicode tables,
+   tree-sitter, regex crate), any fuel: only accepted texts are described.  Proofs/ParseLoc.v, Proofs/ParseLocStmt.v. *)
+From TSG Require Model.Parser Proofs.ParseLocStmt.
+
+Theorem parsed_locs_unique : forall X fuel text fl pats,
+  Parser.parse X fuel text = Parser.POk fl pats -> locs_unique fl = true.
+Proof. exact ParseLocStmt.parsed_locs_unique_lemma. Qed.
+
+Theorem parsed_locs_increasing : forall X fuel text fl pats,
+  Parser.parse X fuel text = Parser.POk fl pats ->
+  forall i j a b, (i < j)%nat ->
+    nth_error (map stmt_loc (file_stmts fl)) i = Some a -> nth_error (map stmt_loc (file_stmts fl)) j = Some b ->
+    fst a < fst b \/ (fst a = fst b /\ snd a < snd b).
+Proof. exact ParseLocStmt.parsed_locs_increasing_lemma. Qed.
+
+(* strict_error_rendering_cites_disp / lazy_error_rendering_cites_disp for a file the parser model returns: no side
+   condition on the file is left *)
+Theorem strict_error_rendering_cites_disp_parsed : forall {rx : Type} X pfuel text pats t fl cfg glob (regexes : list rx) find call fuel sts ms s p e
+    E cause_text node_kind node_pos other_msg w tsg_path tsg src_path src,
+  call_errors_base call ->
+  Parser.parse X pfuel text = Parser.POk fl pats -> incl sts (f_stanzas fl) ->
+  exec_file t fl cfg glob regexes find call fuel sts ms s p = Err e ->
+  (exists l, e = ECancelled l) \/
+  exists st m, In (st, m) (blocks sts ms) /\
+    match nodes_for_capture m (st_full_stanza_idx st) with
+    | n :: _ =>
+        exists s', stmt_in st s' /\ stmt_at fl (stmt_loc s') = Some s' /\
+          let out := render_pretty w tsg_path tsg src_path src (chain_of_error_disp E fl cause_text node_kind node_pos other_msg e) in
+          cites3 tsg_path src_path out (stmt_loc s') (st_start st) (node_pos n) /\
+          contains (display_stmt E s') out = true
+    | [] => False
+    end.
+Proof.
+  intros rx X pfuel text pats t fl cfg glob regexes find call fuel sts ms s p e E cause_text node_kind node_pos other_msg w
+    tsg_path tsg src_path src Hc Hp. apply strict_error_rendering_cites_disp; [exact Hc|exact (parsed_locs_unique _ _ _ _ _ Hp)].
+Qed.
+
+Theorem lazy_error_rendering_cites_disp_parsed : forall {rx : Type} X pfuel text pats t fl cfg supplied budget (regexes : list rx) find call fuel ms g0 e
+    E cause_text node_kind node_pos other_msg w tsg_path tsg src_path src,
+  call_errors_base call ->
+  Parser.parse X pfuel text = Parser.POk fl pats ->
+  run_lazy t fl cfg supplied budget regexes find call fuel ms g0 = Err e ->
+  check_globals (f_globals fl) (globals_nested supplied) = Err e \/
+  (exists l, e = ECancelled l) \/
+  exists cs e0, e = EInContext (CtxStmts cs) e0 /\ (length cs = 1 \/ length cs = 2)%nat /\
+    Forall (fun c => valid_ctx fl ms c /\
+              let out := render_pretty w tsg_path tsg src_path src (chain_of_error_disp E fl cause_text node_kind node_pos other_msg e) in
+              cites3 tsg_path src_path out (sc_stmt c) (sc_stanza c) (node_pos (sc_node c)) /\
+              exists s', stmt_at fl (sc_stmt c) = Some s' /\ (exists st, In st (f_stanzas fl) /\ stmt_in st s') /\
+                         contains (display_stmt E s') out = true) cs.
+Proof.
+  intros rx X pfuel text pats t fl cfg supplied budget regexes find call fuel ms g0 e E cause_text node_kind node_pos other_msg w
+    tsg_path tsg src_path src Hc Hp. apply lazy_error_rendering_cites_disp; [exact Hc|exact (parsed_locs_unique _ _ _ _ _ Hp)].
+Qed.
+
+(* non-vacuity: two stanzas, `if`/`elif`/`else` with a `for` containing a `scan`, a scan arm containing an `if`:
+     (a) @x {
+       if some @x {
+         for y in [1] {
+           scan "s" {
+             "a" { print y }
+           }
+         }
+       } elif none @x {
+         print "e"
+       } else {
+         node n
+       }
+       print 1
+     }
+     (b) @_z {
+       scan "t" { "b" { if #true { let w = 1 } } }
+     }
+   is accepted; its ten statements have the locations below (preorder), increasing and pairwise different *)
+Definition pex_ext : Parser.ext :=
+  {| Parser.x_alpha := fun _ => false; Parser.x_alnum := fun _ => false; Parser.x_ws := fun _ => false;
+     Parser.x_query := fun _ _ => Some (Parser.QOk 1 (Some 1)); Parser.x_merged := fun _ => Some true;
+     Parser.x_regex := fun _ => Some true |}.
+Definition pex_text : str := [40; 97; 41; 32; 64; 120; 32; 123; 10; 32; 32; 105; 102; 32; 115; 111; 109; 101; 32; 64; 120; 32; 123; 10; 32; 32; 32; 32; 102; 111; 114; 32; 121; 32; 105; 110; 32; 91; 49; 93; 32; 123; 10; 32; 32; 32; 32; 32; 32; 115; 99; 97; 110; 32; 34; 115; 34; 32; 123; 10; 32; 32; 32; 32; 32; 32; 32; 32; 34; 97; 34; 32; 123; 32; 112; 114; 105; 110; 116; 32; 121; 32; 125; 10; 32; 32; 32; 32; 32; 32; 125; 10; 32; 32; 32; 32; 125; 10; 32; 32; 125; 32; 101; 108; 105; 102; 32; 110; 111; 110; 101; 32; 64; 120; 32; 123; 10; 32; 32; 32; 32; 112; 114; 105; 110; 116; 32; 34; 101; 34; 10; 32; 32; 125; 32; 101; 108; 115; 101; 32; 123; 10; 32; 32; 32; 32; 110; 111; 100; 101; 32; 110; 10; 32; 32; 125; 10; 32; 32; 112; 114; 105; 110; 116; 32; 49; 10; 125; 10; 40; 98; 41; 32; 64; 95; 122; 32; 123; 10; 32; 32; 115; 99; 97; 110; 32; 34; 116; 34; 32; 123; 32; 34; 98; 34; 32; 123; 32; 105; 102; 32; 35; 116; 114; 117; 101; 32; 123; 32; 108; 101; 116; 32; 119; 32; 61; 32; 49; 32; 125; 32; 125; 32; 125; 10; 125; 10].
+Example parsed_locs_unique_nonvacuous :
+  exists fl, Parser.parse pex_ext (Parser.fuel_of pex_text) pex_text = Parser.POk fl [[97]; [98]] /\
+    map stmt_loc (file_stmts fl) = [(1, 2); (2, 4); (3, 6); (4, 14); (8, 4); (10, 4); (12, 2); (15, 2); (15, 19); (15, 30)] /\
+    locs_unique fl = true.
+Proof.
+  destruct (Parser.parse pex_ext (Parser.fuel_of pex_text) pex_text) as [fl pats| | | |] eqn:E; try (vm_compute in E; discriminate).
+  exists fl. assert (H : Parser.POk fl pats = Parser.parse pex_ext (Parser.fuel_of pex_text) pex_text) by (symmetry; exact E).
+  vm_compute in H. injection H as -> ->. repeat split.
+Qed.
+
+(* ---- identifiers of a parsed file.  An identifier is `_` or an alphabetic character followed by `_`, `-` and alphanumeric
+   characters (parse_name / parse_capture of the parser model); below U+0080 these classes are ASCII letters, digits, `_`
+   and `-`, and the external Unicode tables are consulted for code points >= U+0080 only: NO hypothesis on the tables is
+   needed for "no identifier character is below U+0020".  Hence every statement of a parsed file, at any depth, satisfies
+   the hypothesis of display_stmt_single_line_partial (parsed_names_clean), and its text - whatever its string constants
+   are - contains no character below U+0020, in particular no LF and no CR: it is a single line
+   (parsed_stmt_text_single_line).  As before, characters >= U+0080 that some terminals treat as line breaks are governed by
+   the Unicode tables (X for identifiers, E for string constants).  Proofs/ParseLoc.v, Proofs/ParseClean.v. *)
+From TSG Require Proofs.ParseClean.
+
+Theorem parsed_names_clean : forall X fuel text fl pats s,
+  Parser.parse X fuel text = Parser.POk fl pats -> In s (file_stmts fl) -> stmt_names_cleanb s = true.
+Proof.
+  intros X fuel text fl pats s Hp Hin. pose proof (ParseClean.parsed_names_clean_lemma _ _ _ _ _ Hp) as H.
+  rewrite forallb_forall in H. exact (H s Hin).
+Qed.
+
+Theorem parsed_stmt_text_single_line : forall X fuel text fl pats E s,
+  Parser.parse X fuel text = Parser.POk fl pats -> In s (file_stmts fl) ->
+  Forall (fun c => 32 <= c) (display_stmt E s) /\ ~ In 10 (display_stmt E s) /\ ~ In 13 (display_stmt E s).
+Proof.
+  intros X fuel text fl pats E s Hp Hin. pose proof (parsed_names_clean _ _ _ _ _ _ Hp Hin) as Hc.
+  split; [exact (clean_display_stmt E s (stmt_names_cleanb_spec s Hc))|exact (display_stmt_single_line_checked_partial E s Hc)].
+Qed.
+
+(* non-vacuity: the statements of the file of parsed_locs_unique_nonvacuous; the text of the `for` (its nested blocks elided) *)
+Example parsed_stmt_text_nonvacuous :
+  exists fl, Parser.parse pex_ext (Parser.fuel_of pex_text) pex_text = Parser.POk fl [[97]; [98]] /\
+    length (file_stmts fl) = 10%nat /\ forallb stmt_names_cleanb (file_stmts fl) = true /\
+    option_map (display_stmt (dpenv_of [])) (nth_error (file_stmts fl) 1)
+    = Some [102;111;114;32;121;32;105;110;32;91;49;93;32;123;32;46;46;46;32;125;32;97;116;32;40;51;44;32;53;41].   (* for y in [1] { ... } at (3, 5) *)
+Proof.
+  destruct (Parser.parse pex_ext (Parser.fuel_of pex_text) pex_text) as [fl pats| | | |] eqn:E; try (vm_compute in E; discriminate).
+  exists fl. assert (H : Parser.POk fl pats = Parser.parse pex_ext (Parser.fuel_of pex_text) pex_text) by (symmetry; exact E).
+  vm_compute in H. injection H as -> ->. vm_compute. repeat split.
+Qed.
+
+(* ================================================================================================================
+   LOADED FILES.  The file that is EXECUTED is the parsed file after File::check.  Model/Loader.v `load X q fuel text` is the
+   parser model followed by the checker model (q = the query tables tree-sitter provides; Props/C05render.v load_spec).  The
+   checker rewrites capture resolutions only (check_resolves, Props/C06.v), so statement locations and printed identifiers
+   are those of the parsed file (Proofs/LoadedFile.v): the facts above hold of the loaded file, and the end-to-end theorems
+   hold for every text the model's loader accepts - no hypothesis about the file is left. *)
+From TSG Require Model.Loader Proofs.LoadedFile.
+
+Theorem loaded_locs_unique : forall X q fuel text fl pats,
+  Loader.load X q fuel text = Loader.LdOk fl pats -> locs_unique fl = true.
+Proof. exact LoadedFile.loaded_locs_unique_lemma. Qed.
+
+Theorem loaded_locs_increasing : forall X q fuel text fl pats,
+  Loader.load X q fuel text = Loader.LdOk fl pats ->
+  forall i j a b, (i < j)%nat ->
+    nth_error (map stmt_loc (file_stmts fl)) i = Some a -> nth_error (map stmt_loc (file_stmts fl)) j = Some b ->
+    fst a < fst b \/ (fst a = fst b /\ snd a < snd b).
+Proof. exact LoadedFile.loaded_locs_increasing_lemma. Qed.
+
+Theorem loaded_stmt_text_single_line : forall X q fuel text fl pats E s,
+  Loader.load X q fuel text = Loader.LdOk fl pats -> In s (file_stmts fl) ->
+  stmt_names_cleanb s = true /\
+  Forall (fun c => 32 <= c) (display_stmt E s) /\ ~ In 10 (display_stmt E s) /\ ~ In 13 (display_stmt E s).
+Proof.
+  intros X q fuel text fl pats E s Hl Hin. pose proof (LoadedFile.loaded_names_clean_lemma _ _ _ _ _ _ Hl) as H.
+  rewrite forallb_forall in H. pose proof (H s Hin) as Hc.
+  split; [exact Hc|]. split; [exact (clean_display_stmt E s (stmt_names_cleanb_spec s Hc))|exact (display_stmt_single_line_checked_partial E s Hc)].
+Qed.
+
+Theorem strict_error_rendering_cites_disp_loaded : forall {rx : Type} X q pfuel text pats t fl cfg glob (regexes : list rx) find call fuel sts ms s p e
+    E cause_text node_kind node_pos other_msg w tsg_path tsg src_path src,
+  call_errors_base call ->
+  Loader.load X q pfuel text = Loader.LdOk fl pats -> incl sts (f_stanzas fl) ->
+  exec_file t fl cfg glob regexes find call fuel sts ms s p = Err e ->
+  (exists l, e = ECancelled l) \/
+  exists st m, In (st, m) (blocks sts ms) /\
+    match nodes_for_capture m (st_full_stanza_idx st) with
+    | n :: _ =>
+        exists s', stmt_in st s' /\ stmt_at fl (stmt_loc s') = Some s' /\
+          let out := render_pretty w tsg_path tsg src_path src (chain_of_error_disp E fl cause_text node_kind node_pos other_msg e) in
+          cites3 tsg_path src_path out (stmt_loc s') (st_start st) (node_pos n) /\
+          contains (display_stmt E s') out = true
+    | [] => False
+    end.
+Proof.
+  intros rx X q pfuel text pats t fl cfg glob regexes find call fuel sts ms s p e E cause_text node_kind node_pos other_msg w
+    tsg_path tsg src_path src Hc Hp. apply strict_error_rendering_cites_disp; [exact Hc|exact (loaded_locs_unique _ _ _ _ _ _ Hp)].
+Qed.
+
+Theorem lazy_error_rendering_cites_disp_loaded : forall {rx : Type} X q pfuel text pats t fl cfg supplied budget (regexes : list rx) find call fuel ms g0 e
+    E cause_text node_kind node_pos other_msg w tsg_path tsg src_path src,
+  call_errors_base call ->
+  Loader.load X q pfuel text = Loader.LdOk fl pats ->
+  run_lazy t fl cfg supplied budget regexes find call fuel ms g0 = Err e ->
+  check_globals (f_globals fl) (globals_nested supplied) = Err e \/
+  (exists l, e = ECancelled l) \/
+  exists cs e0, e = EInContext (CtxStmts cs) e0 /\ (length cs = 1 \/ length cs = 2)%nat /\
+    Forall (fun c => valid_ctx fl ms c /\
+              let out := render_pretty w tsg_path tsg src_path src (chain_of_error_disp E fl cause_text node_kind node_pos other_msg e) in
+              cites3 tsg_path src_path out (sc_stmt c) (sc_stanza c) (node_pos (sc_node c)) /\
+              exists s', stmt_at fl (sc_stmt c) = Some s' /\ (exists st, In st (f_stanzas fl) /\ stmt_in st s') /\
+                         contains (display_stmt E s') out = true) cs.
+Proof.
+  intros rx X q pfuel text pats t fl cfg supplied budget regexes find call fuel ms g0 e E cause_text node_kind node_pos other_msg w
+    tsg_path tsg src_path src Hc Hp. apply lazy_error_rendering_cites_disp; [exact Hc|exact (loaded_locs_unique _ _ _ _ _ _ Hp)].
+Qed.
+
+(* non-vacuity: the text of parsed_locs_unique_nonvacuous is accepted by the loader (capture @x resolved against the
+   query tables below); same ten locations *)
+Definition pex_q : Checker.query_tables :=
+  {| Checker.qt_stanza_names := [[[120]; Checker.FULL_MATCH]; [[95;122]; Checker.FULL_MATCH]];
+     Checker.qt_file_names := [[120]; Checker.FULL_MATCH; [95;122]];
+     Checker.qt_file_quants := [[QOpt; QOne; QZero]; [QZero; QOne; QOne]]; Checker.qt_nullable := [false; false] |}.
+Example loaded_locs_unique_nonvacuous :
+  exists fl, Loader.load pex_ext pex_q (Parser.fuel_of pex_text) pex_text = Loader.LdOk fl [[97]; [98]] /\
+    map stmt_loc (file_stmts fl) = [(1, 2); (2, 4); (3, 6); (4, 14); (8, 4); (10, 4); (12, 2); (15, 2); (15, 19); (15, 30)].
+Proof.
+  destruct (Loader.load pex_ext pex_q (Parser.fuel_of pex_text) pex_text) as [fl pats| | | |] eqn:E; try (vm_compute in E; discriminate).
+  exists fl. assert (H : Loader.LdOk fl pats = Loader.load pex_ext pex_q (Parser.fuel_of pex_text) pex_text) by (symmetry; exact E).
+  vm_compute in H. injection H as -> ->. repeat split.
+Qed.
